@@ -567,6 +567,7 @@ for _cid, _doms in dict(C01=['gen'], C02=['eval'], C04=['prim'], C05=['op'], C06
     _c['units'] = with_seq(_c['units'], *_doms)
     _c['viol_filter'] = _chain(_c.get('viol_filter'), seq_filter(_cid))
     _c['level_text'] += SEQ_TEXT
+    _c['technique'] += '; plus exhaustive enumeration of call sequences (depth 3, thorough 4) over a menu of calls on long-lived objects, objects on a second grid and temporary grids at reused addresses, each sequence in a pristine process, against the exact reference'
     _c['engine'] = _c.get('engine', 'E1 input enumerator') + ' + E5 call-sequence explorer'
     _c['guards'] = dict(_c['guards'], classes=_c['guards'].get('classes', []) + ['len3', 'repeated-call'], counters=_c['guards'].get('counters', []) + ['calls_executed'])
     _c['bounds'] = dict(quick=_c['bounds']['quick'] + '; call sequences: menu ' + '/'.join(_doms) + ' to depth %d' % SEQ_DEPTH[_doms[0]][0],
